@@ -28,6 +28,14 @@ OBLIGATIONS = [
      "unwind": 20, "timeout": 600,
      "title": "sm2_private_key_info_encrypt_to_der: salt and IV are the two entropy draws (used and emitted); a failure of either is reported and nothing is emitted",
      "bounds": "failure at draw 0, 1 or never", "stubs": ["rand_bytes model", "pbkdf2 / SM4-CBC / PKCS#8 encoder / key encoder: recorders"]},
+    {"id": "C18.sm9_pkcs8_encrypt", "harness": "harness/C18/pkcs8.c", "entry": "h_pkcs8_encrypt", "units": ["sm9_key.c"], "defs": ["-DSM9"], "unit_defs": {"sm9_key.c": ["-Dstatic="]},
+     "remove": {"sm9_key.c": ["sm9_sign_master_key_to_der", "sm9_private_key_info_to_der"]}, "unwind": 20, "timeout": 600,
+     "title": "sm9_*_info_encrypt_to_der (shared helper sm9_private_key_info_encrypt_to_der): salt and IV are the two entropy draws (used and emitted); a failure of either is reported and nothing is emitted",
+     "bounds": "failure at draw 0, 1 or never; entered through sm9_sign_master_key_info_encrypt_to_der", "stubs": ["rand_bytes model", "pbkdf2 / SM4-CBC / PKCS#8 encoder / key encoders: recorders"]},
+    {"id": "C18.sm9_rand_range", "harness": "harness/C18/rand.c", "entry": "h_sm9_rand_range", "units": ["sm9_z256.c"], "remove": {"sm9_z256.c": ["sm9_z256_print", "sm9_z256_from_hex", "sm9_z256_equ_hex", "sm9_z256_print_bn"]},
+     "defs": ["-DSM9RR"], "unwind": 6, "unwindset": ["rand_bytes.0:34"], "timeout": 600,
+     "title": "sm9_z256_rand_range: success only with the last drawn value and only if it is below the range; a failing draw (first or later) is reported",
+     "bounds": "range = N; up to 3 draws (the third one assumed in range), failure at draw 0, 1, 2 or never", "stubs": ["rand_bytes model"]},
 ]
 for mod, oid, nid in ((C01, "C01-e.sign_finish_nonce_step", "C18.sm2_sign_ctx_nonce_step"), (C11, "C11.cbc_encrypt_rand_fail", "C18.tls_cbc_iv_fail")):
     for o in mod.OBLIGATIONS:
